@@ -290,6 +290,61 @@ theorem step_good (s : State) (a : Act) (hg : Good s) : Good (step s a) := by
       omega
     · exact hg
 
+/-- the error map agrees with the ghost record of the last failed execution while that error is unexpired -/
+def ErrAgree (s : State) : Prop :=
+  ∀ id e exp, alook s.lastErr id = some (e, exp) → s.now ≤ exp → alook s.errors id = some (e, exp)
+
+theorem errAgree_init (cfg : Cfg) : ErrAgree (init cfg) := by
+  intro id e exp h; simp [init, alook] at h
+
+theorem step_errAgree (s : State) (a : Act) (h : ErrAgree s) : ErrAgree (step s a) := by
+  cases a with
+  | adv d => intro id e exp h1 h2; exact h id e exp h1 (by have : s.now + d ≤ exp := h2; omega)
+  | reserve t id' =>
+    have hc : ∀ id e exp, alook s.lastErr id = some (e, exp) → s.now ≤ exp → alook (cleaned s) id = some (e, exp) := by
+      intro id e exp h1 h2
+      unfold cleaned
+      split
+      · exact alook_filter_keep s.errors _ id (e, exp) (h id e exp h1 h2) (by simp [expired]; omega)
+      · exact h id e exp h1 h2
+    simp only [step, reserve]
+    split
+    · split
+      · exact hc
+      · exact hc
+    · exact h
+  | workerOk t =>
+    simp only [step]
+    split
+    · split
+      · exact h
+      · exact h
+    · exact h
+  | workerBusy t => simp only [step]; split <;> exact h
+  | release t => simp only [step]; split <;> exact h
+  | finishOk id' =>
+    simp only [step]
+    split
+    · intro id e exp h1 h2
+      have h1' : alook (adel s.lastErr id') id = some (e, exp) := h1
+      rw [alook_adel] at h1'
+      split at h1'
+      · cases h1'
+      · exact h id e exp h1' h2
+    · exact h
+  | finishErr id' e' nf =>
+    simp only [step]
+    split
+    · intro id e exp h1 h2
+      have h1' : alook ((id', (e', s.now + (if nf then s.cfg.nfTTL else s.cfg.errTTL))) :: s.lastErr) id = some (e, exp) := h1
+      show alook ((id', (e', s.now + (if nf then s.cfg.nfTTL else s.cfg.errTTL))) :: s.errors) id = some (e, exp)
+      rw [alook_cons] at h1' ⊢
+      split
+      · rename_i heq; simp only [heq, if_true] at h1'; exact h1'
+      · rename_i hne; simp only [hne, if_false] at h1'; exact h id e exp h1' h2
+    · exact h
+  | releaseWorker => simp only [step]; split <;> exact h
+
 end RC
 
 /-! ### IntervalTrap -/
@@ -722,6 +777,106 @@ theorem step_good (s : State) (a : Act) (hg : Good s) : Good (step s a) := by
             exact ⟨x, hother _ _ hj h1, h2, h3⟩
         · exact hg
     · exact hg
+
+/-- a garbage-collected task is expired, idle, and stays so -/
+def DelExpired (s : State) : Prop :=
+  ∀ (i : Nat) (task : Task), s.heap[i]? = some task → task.deleted = true →
+    expired s.now task = true ∧ task.running = false
+
+theorem expired_mono (now d : Nat) (task : Task) (h : expired now task = true) : expired (now + d) task = true := by
+  unfold expired at *
+  cases he : task.exp with
+  | none => rfl
+  | some e => simp [he] at h ⊢; omega
+
+theorem delExpired_init : DelExpired (init true) := by
+  intro i task h; simp [init] at h
+
+theorem delExpired_lookup {s : State} (hd : DelExpired s) (t k : Nat) : DelExpired (lookup s t k) := by
+  unfold lookup
+  split
+  · exact hd
+  · intro i task h hdel
+    have h' : (s.heap ++ [({ key := k } : Task)])[i]? = some task := h
+    by_cases hlt : i < s.heap.length
+    · rw [List.getElem?_append_left hlt] at h'; exact hd i task h' hdel
+    · rw [List.getElem?_append_right (by omega)] at h'
+      cases hx : i - s.heap.length with
+      | zero => rw [hx] at h'; simp at h'; subst h'; simp at hdel
+      | succ n => rw [hx] at h'; simp at h'
+
+theorem step_delExpired (s : State) (a : Act) (hg : Good s) (hd : DelExpired s) : DelExpired (step s a) := by
+  cases a with
+  | adv d =>
+    intro i task h hdel
+    obtain ⟨h1, h2⟩ := hd i task h hdel
+    exact ⟨expired_mono s.now d task h1, h2⟩
+  | call t k => simp only [step]; split; exact delExpired_lookup hd t k; exact hd
+  | lookup t => simp only [step]; split; exact delExpired_lookup hd t _; exact hd
+  | wake t =>
+    simp only [step]
+    split
+    · split
+      · exact hd
+      · split <;> exact hd
+    · exact hd
+  | enter t =>
+    simp only [step]
+    split
+    · rename_i k tk ht
+      split
+      · exact hd
+      · rename_i task htk
+        split
+        · exact hd
+        · exact hd
+        · exact hd
+        · rename_i hout
+          have hnd : task.deleted = false := by
+            unfold enterOut at hout
+            cases hdl : task.deleted with
+            | false => rfl
+            | true => simp [hg.retryOn, hdl] at hout
+          intro i x hx hdel
+          have hx' : (s.heap.set tk { task with running := true })[i]? = some x := hx
+          rcases getElem?_set_cases _ _ _ _ _ hx' with ⟨_, h1, _⟩ | ⟨_, h1⟩
+          · subst h1; simp [hnd] at hdel
+          · exact hd i x h1 hdel
+    · exact hd
+  | finish t out ttl =>
+    simp only [step]
+    split
+    · rename_i k tk ht
+      split
+      · exact hd
+      · rename_i task htk
+        obtain ⟨task0, h0, _, hnd⟩ := hg.execRunning t k tk ht
+        rw [htk] at h0; cases h0
+        intro i x hx hdel
+        have hx' : (s.heap.set tk { task with output := some out, exp := some (s.now + ttl), running := false,
+                                              gen := task.gen + 1 })[i]? = some x := hx
+        rcases getElem?_set_cases _ _ _ _ _ hx' with ⟨_, h1, _⟩ | ⟨_, h1⟩
+        · subst h1; simp [hnd] at hdel
+        · exact hd i x h1 hdel
+    · exact hd
+  | gc k =>
+    simp only [step]
+    split
+    · rename_i tk hlk
+      split
+      · exact hd
+      · rename_i task htk
+        split
+        · rename_i hcond
+          intro i x hx hdel
+          have hx' : (s.heap.set tk { task with deleted := true })[i]? = some x := hx
+          rcases getElem?_set_cases _ _ _ _ _ hx' with ⟨_, h1, _⟩ | ⟨_, h1⟩
+          · subst h1
+            have hc : expired s.now task = true ∧ task.running = false := by simpa using hcond
+            exact ⟨by simpa [expired] using hc.1, hc.2⟩
+          · exact hd i x h1 hdel
+        · exact hd
+    · exact hd
 
 end Lim
 
